@@ -257,6 +257,107 @@ func languageOrders(r *ev.Run, langs []langCase, n *int64) {
 	}
 }
 
+// optionLists: every list of one to three language options over {en, ja, fr, und} (84 lists) at
+// every report constructor.  What several language options mean is not spelled out by the
+// property, so the oracle is deliberately weak: (a) the whole report — the outer level and both
+// embedded levels — is in ONE language; (b) that language is the one requested by the first or by
+// the last option (fr and und count as English); (c) the library follows one of these two
+// policies for all lists.  A list whose options all ask for the same names leaves no choice.
+func optionLists(r *ev.Run, n *int64) {
+	tags := []struct {
+		name string
+		tag  language.Tag
+		ja   bool
+	}{{"en", language.English, false}, {"ja", language.Japanese, true}, {"fr", language.French, false}, {"und", language.Und, false}}
+	var lists [][]int
+	for a := range tags {
+		lists = append(lists, []int{a})
+		for b := range tags {
+			lists = append(lists, []int{a, b})
+			for c := range tags {
+				lists = append(lists, []int{a, b, c})
+			}
+		}
+	}
+	bgs := reportBackgrounds()[:2]
+	en, ja := langCase{"en", nil, language.English, true}, langCase{"ja", nil, language.Japanese, true}
+	firstWins, lastWins := "", ""
+	for _, bg := range bgs {
+		s := canonicalWritten(3, 2, bg.ver, bg.tok)
+		em, err := v3.NewEnvironmental().Decode(s)
+		if err != nil {
+			continue
+		}
+		for _, list := range lists {
+			var opts []report.ReportOptionsFunc
+			names := []string{}
+			for _, i := range list {
+				opts = append(opts, report.WithOptionsLanguage(tags[i].tag))
+				names = append(names, tags[i].name)
+			}
+			desc := "[" + fmt.Sprint(names) + "]"
+			first, last := tags[list[0]].ja, tags[list[len(list)-1]].ja
+			for level := 2; level >= 0; level-- {
+				cs := map[string]any{"vector": s, "language_options": desc, "report": "New" + map[int]string{0: "Base", 1: "Temporal", 2: "Environmental"}[level]}
+				var reps []reflect.Value // outer level first
+				switch level {
+				case 2:
+					rep := report.NewEnvironmental(em, opts...)
+					if rep == nil || rep.TemporalReport == nil || rep.TemporalReport.BaseReport == nil {
+						r.Violate(ev.Violation{Kind: "report-nil", Case: cs, Observed: "nil", Expected: "report"})
+						continue
+					}
+					reps = []reflect.Value{reflect.ValueOf(rep).Elem(), reflect.ValueOf(rep.TemporalReport).Elem(), reflect.ValueOf(rep.TemporalReport.BaseReport).Elem()}
+				case 1:
+					rep := report.NewTemporal(em.TemporalMetrics(), opts...)
+					if rep == nil || rep.BaseReport == nil {
+						r.Violate(ev.Violation{Kind: "report-nil", Case: cs, Observed: "nil", Expected: "report"})
+						continue
+					}
+					reps = []reflect.Value{reflect.ValueOf(rep).Elem(), reflect.ValueOf(rep.BaseReport).Elem()}
+				case 0:
+					rep := report.NewBase(em.BaseMetrics(), opts...)
+					if rep == nil {
+						r.Violate(ev.Violation{Kind: "report-nil", Case: cs, Observed: "nil", Expected: "report"})
+						continue
+					}
+					reps = []reflect.Value{reflect.ValueOf(rep).Elem()}
+				}
+				*n++
+				// which language is each level in?
+				inLang := func(lc langCase) bool {
+					for i, rv := range reps {
+						got, want := ownFields(rv), expectedReport(level-i, bg.ver, bg.tok, lc.tag)
+						for k, g := range got {
+							if w, ok := want[k]; ok && g != w {
+								return false
+							}
+						}
+					}
+					return true
+				}
+				isEn, isJa := inLang(en), inLang(ja)
+				switch {
+				case !isEn && !isJa:
+					r.Violate(ev.Violation{Kind: "report-mixes-languages", Case: cs, Observed: "neither all-English nor all-Japanese over the outer and the embedded reports (or a wrong field)", Expected: "one language for the whole report"})
+				case first == last && isJa != first:
+					r.Violate(ev.Violation{Kind: "report-language", Case: cs, Observed: map[bool]string{true: "Japanese", false: "English"}[isJa], Expected: map[bool]string{true: "Japanese", false: "English"}[first] + " (the first and the last option both ask for it)"})
+				case first != last:
+					if isJa == first {
+						firstWins = desc
+					} else {
+						lastWins = desc
+					}
+				}
+			}
+		}
+	}
+	if firstWins != "" && lastWins != "" {
+		r.Violate(ev.Violation{Kind: "report-language-policy", Case: map[string]any{"option_list_where_the_first_option_decided": firstWins, "option_list_where_the_last_option_decided": lastWins},
+			Observed: "the first language option decides for one list and the last one for another", Expected: "one policy for all lists"})
+	}
+}
+
 // reportsAfterAssignment: report, assign one exported metric field (or the version) of the same
 // object, report again in the same language: the second report shows the object as it is now.
 func reportsAfterAssignment(r *ev.Run, langs []langCase, n *int64) {
@@ -382,6 +483,7 @@ func init() {
 		})
 		r.Phase("language orders", func() { languageOrders(r, langs, &n) })
 		r.Phase("reports after field assignment", func() { reportsAfterAssignment(r, langs[:3], &n) })
+		r.Phase("language option lists", func() { optionLists(r, &n) })
 		for bi, bg := range reportBackgrounds() {
 			d := dev
 			_ = bi
@@ -448,7 +550,7 @@ func init() {
 		r.Sample(map[string]any{"vector": canonicalWritten(3, 2, "3.1", reportBackgrounds()[0].tok), "languages": "default, en, ja, und, fr (+ de, zh, en-US, ja-JP for every 8th vector)", "fields_compared": "every exported string field of EnvironmentalReport, TemporalReport, BaseReport"})
 		r.Set("exhaustive", false)
 		r.Set("deviation_bound", int64(dev))
-		r.Set("rule", "every v3 vector that differs from one of 4 background vectors in at most 2 (quick) / 3 (thorough) metrics, decoded by the real decoders, reports built in {default, en, ja, und, fr, de, zh} (+ en-US, ja-JP checked for non-emptiness only); every exported string field of the three report structs (enumerated by reflection; an uncovered field is an infrastructure error) compared with the title/value-name function of exactly the like-named metric, the canonical vector and version of its level, the decimal rendering of the exact oracle score and the band of that level's score; plus a sweep that renders one vector for every attainable (level, score) pair; distinct by vector")
+		r.Set("rule", "every v3 vector that differs from one of 4 background vectors in at most 2 (quick) / 3 (thorough) metrics, decoded by the real decoders, reports built in {default, en, ja, und, fr, de, zh} (+ en-US, ja-JP checked for non-emptiness only); every exported string field of the three report structs (enumerated by reflection; an uncovered field is an infrastructure error) compared with the title/value-name function of exactly the like-named metric, the canonical vector and version of its level, the decimal rendering of the exact oracle score and the band of that level's score; plus a sweep that renders one vector for every attainable (level, score) pair; plus every list of 1-3 language options over {en, ja, fr, und} at every constructor (one language for the whole report, decided by the first or by the last option, uniformly); distinct by vector")
 		r.Assume("the names.* functions are the oracle for display names (their own correctness is C18)")
 	})
 }
